@@ -668,3 +668,52 @@ func TestC10_R_ConcurrentShardedBuildsAfterARefusedRequest(t *testing.T) {
 		}
 	}
 }
+
+// One quick Builder used by several goroutines at once (files and directories of one tree built in parallel inside one
+// Store callback): every file gets the link it gets when built on its own.
+func TestC10_R_QuickBuilderSharedByGoroutines(t *testing.T) {
+	const G = 6
+	datas := make([][]byte, G)
+	want := make([]cid.Cid, G)
+	for g := range datas {
+		datas[g] = lcgBytes([]int{3 << 20, 100, 1<<20 + 7, 700000, 5, 262145}[g], byte(g+1), 0)
+		c, _, err := buildFile(NewStore(), datas[g], "", 174)
+		if err != nil {
+			t.Fatal(err)
+		}
+		want[g] = c
+	}
+	for round := 0; round < 8; round++ {
+		st := NewStore()
+		st.Yield = true
+		errs := make([]string, G)
+		err := quickbuilder.Store(st.LinkSystem(), func(b *quickbuilder.Builder) error {
+			var wg sync.WaitGroup
+			for g := 0; g < G; g++ {
+				wg.Add(1)
+				go func(g int) {
+					defer wg.Done()
+					p, _ := safe(func() {
+						n := b.NewBytesFile(datas[g])
+						if c := cidOf(n.Link()); c != want[g] {
+							errs[g] = fmt.Sprintf("file #%d (%d bytes) built as %s, on its own as %s", g, len(datas[g]), c, want[g])
+						}
+					})
+					if p != nil {
+						errs[g] = fmt.Sprintf("file #%d: panic: %v", g, p)
+					}
+				}(g)
+			}
+			wg.Wait()
+			return nil
+		})
+		if err != nil {
+			t.Fatalf("C10: quick builder: %v", err)
+		}
+		for _, e := range errs {
+			if e != "" {
+				t.Fatalf("C10: %d goroutines building files through one quick Builder (round %d): %s", G, round, e)
+			}
+		}
+	}
+}
